@@ -29,7 +29,7 @@ CHECKS = {
     'C09': ('exploration', 'offline trace checker of the Monte-Carlo loop against a sequential specification (events from wrapped module-level names)',
             'Every chi2 evaluation, acceptance decision (with the uniform draw observed), move and the returned array of real runs are recorded and replayed against a 30-line specification: held energy, Metropolis rule, proposal type and geometry, last-accepted return, exact stop; runs in length units 1e-5..1e3, ring molecules, and molecules whose single-atom moves have no finite measure (such proposals may only be refused).', '4 C09'),
     'C10': ('exploration', 'boundary recorder on the optimiser entry point (atoms identified by unique coordinates) + post-conditions on the guessers (40x40 exhaustive) + routing log of Manager',
-            'What reaches minimize_molecules is translated back to atoms by coordinates and compared with the user pairs; the per-residue splitter is enumerated over all 1..40 x 1..40 sizes; manager options (also pre-parsed, in the caller's key order, handed over twice) are routed on generated multi-species systems; repeated alignments re-use one restraint list object.', '4 C10'),
+            'What reaches minimize_molecules is translated back to atoms by coordinates and compared with the user pairs; the per-residue splitter is enumerated over all 1..40 x 1..40 sizes; manager options (also pre-parsed, in the key order of the caller, handed over twice) are routed on generated multi-species systems; repeated alignments re-use one restraint list object.', '4 C10'),
     'C11': ('exploration', 'reference = generator ground truth; all sequences <= 6 over 5 species x all load orders enumerated (thorough)',
             'System() on generated files; every returned molecule is identified through its unique coordinates with the file lines it came from. The finite sub-space is enumerated completely in the thorough tier, longer systems are sampled; a second species family (residue layouts that merge across molecule boundaries), refused topologies between good loads, and interleaved iterations / indexing are included.', '4 C11'),
     'C12': ('exploration', 'history monitor: one SystemGro object vs a reference list built by an independent reader, random access histories',
